@@ -419,6 +419,11 @@ class Model:
             if r is not NotImplemented:
                 return r
         callee = I.eval(e.func)
+        if I.call_hook is not None and isinstance(callee, FuncRef) and name.split(".")[-1] != callee.qualname.split(".")[-1]:
+            # the callee is reached through an alias (a function value kept in a variable / tuple): hooks see it under its own name
+            r = I.call_hook(I, callee.qualname, pos, kw_hook, e)
+            if r is not NotImplemented:
+                return r
         return self.invoke(callee, pos, kw, e, name)
 
     def invoke(self, callee: Any, pos: List[Any], kw: Dict[str, Any], node, name: str = "") -> Any:
